@@ -1,10 +1,13 @@
 #!/bin/bash
-# seedsweep.sh "<seeds>" "<checks>" : run quick checks under several seeds, print one line per run + violation clauses
+# seedsweep.sh "<seeds>" "<checks>" [tier] : run checks under several seeds (evidence and replays kept under
+# /tmp/sw/<seed>, never in /verif/evidence), print one line per run + violation clauses
+tier=${3:-quick}
 for s in $1; do for c in $2; do
-  out=$(VERIF_SEED=$s VERIF_EVID=/tmp/sweep_evid_$$ VERIF_BUILD=/tmp/sweep_build_$$ ./check $c --tier quick 2>&1)
+  out=$(VERIF_SEED=$s VERIF_EVID=/tmp/sw/$s VERIF_BUILD=/tmp/swb_$$ ./check $c --tier $tier 2>&1)
   rc=$?
-  echo "seed=$s $c exit=$rc $(echo "$out" | grep "^$c " | cut -c1-220)"
+  echo "seed=$s $c exit=$rc $(echo "$out" | grep "^$c " | cut -c1-260)"
+  echo "$out" | grep "^VIOLATION" | head -6
   echo "$out" | grep "clause=" | cut -c1-260 | head -6
   echo "$out" | grep "MACHINERY" | head -2
 done; done
-rm -rf /tmp/sweep_evid_$$ /tmp/sweep_build_$$
+rm -rf /tmp/swb_$$
